@@ -17,7 +17,7 @@ RULE = ("random histories of <=12 editing operations (construct incl. stripped c
 ASSUMPTIONS = ["string semantics of each operation as coded in rv/model/textmodel.py (Python str methods, "
                "cell-based cropping per the reference width table)",
                "styles of characters newly created by padding, truncation and tab expansion are not constrained"]
-REQUIRED = ["mon.plain", "mon.len", "mon.char_styles", "mon.style_only_ops"]
+REQUIRED = ["mon.plain", "mon.len", "mon.char_styles", "mon.style_only_ops", "mon.aliasing"]
 MIN_NONTRIVIAL = {"quick": 3000, "thorough": 100000}
 
 _console = None
@@ -435,6 +435,9 @@ def _choose_piece(ctx, rng, lines, mpieces, log, op):
     return lines[i], mpieces[i], op, ok
 
 
+DERIVING_OPS = {"split", "divide", "fit", "index", "slice", "copy", "add", "join", "assemble"}
+
+
 def wl_histories(ctx, rng, case_no):
     t, m = build_pair(rng, 14, controls=0.25)
     log = [["construct", m.plain, repr(t.spans), str(t.style)]]
@@ -443,19 +446,46 @@ def wl_histories(ctx, rng, case_no):
         return
     nops = rng.randint(1, 12)
     done = 0
+    retired = []        # (Text, model) pairs that an operation derived a NEW value from: they must not change any more
     for _ in range(nops):
+        before_t, before_m = t, m.copy()
         t, m, op, ok = step(ctx, rng, t, m, log)
         ctx.hist("ops", op)
         done += 1
-        if not ok:
+        if not ok or t is None:
             break
+        if op in DERIVING_OPS and t is not before_t:
+            # the operation returned new object(s): the source keeps its value whatever is done to the result
+            # afterwards (aliasing check)
+            retired.append((before_t, before_m))
+            del retired[:-3]
+        elif op in DERIVING_OPS and op != "index":
+            # (an out-of-range [i] raises IndexError and leaves the text as it is; every other deriving operation is
+            # documented to return new Text instances)
+            ctx.violation("derived-object-is-the-source-object:" + op, {"log": log})
+            break
+        elif retired:
+            ctx.count("mon.aliasing")
+            for rt, rm in retired:
+                if rt is t:
+                    continue
+                if rt.plain != rm.plain or len(rt) != len(rm.plain) or \
+                        [v for _, v in TV.char_styles(rt, console())] != [
+                            v if v is not None else gv for (_, v), (_, gv) in
+                            zip(rm.expected_vis(), TV.char_styles(rt, console()))]:
+                    ctx.violation("source-changed-by-edit-of-derived-object:" + op,
+                                  {"log": log, "source_plain_now": rt.plain, "source_plain_expected": rm.plain})
+                    ok = False
+                    break
+            if not ok:
+                break
     layered = any(l for _, l in m.chars if l) or m.base is not None
     ctx.hist("history_len", done)
     ctx.case_done(("h", repr(log)), done >= 3 and layered, {"log": log, "final_plain": m.plain})
 
 
 def workloads(tier):
-    return [WL("histories", wl_histories, 1500000 if tier == "thorough" else 160000)]
+    return [WL("histories", wl_histories, 1500000 if tier == "thorough" else 100000)]
 
 
 LEVEL_TEXT = ("Runs the real rich.text.Text through seeded random operation histories next to a small reference "
